@@ -20,7 +20,7 @@ META = {
             "PARSEC_HOOK_RETURN_AGAIN 0-3 times per instance and task_startup_iter / task_startup_chunk in {1, 2, 3, default} "
             "under all priority-sensitive schedulers; TLC validates every execution: attempts are consecutive, each "
             "instance ends exactly once, successors start only after the final End, all startup instances appear once.",
-    "note": "AGAIN counts are seeded per instance (0..3); quick: 6 configurations x ~60 programs. The number of AGAIN returns "
+    "note": "AGAIN counts are seeded per instance (0..3); quick: 8 configurations x ~70 programs. The number of AGAIN returns "
             "actually observed is in the evidence (vacuity guard: > 0).",
     "technique": "TLA+ life-cycle model with AGAIN / startup chunking (TLC) + real executions + trace validation (TLC)",
 }
@@ -33,6 +33,8 @@ def configs(ctx):
                 {"sched": "ip", "cores": 2, "conc": 64, "iter": 1, "chunk": 3},
                 {"sched": "lfq", "cores": 4, "conc": 64, "iter": None, "chunk": 1},
                 {"sched": "pbq", "cores": 1, "conc": 64, "iter": 2, "chunk": None},
+                {"sched": "gd", "cores": 3, "conc": 64, "iter": 1, "chunk": 2},
+                {"sched": "rnd", "cores": 4, "conc": 8, "iter": 2, "chunk": 1, "noise": 4},
                 {"sched": "llp", "cores": 3, "conc": 64, "iter": None, "chunk": None}]
     out = []
     k = 0
@@ -53,7 +55,7 @@ def run(ctx):
     for e in ents:
         it, _ = jdfgen.validate(e["prog"])
         e["ntasks"] = len(it.order)
-    ents += jdfgen.random_programs(3000 + ctx.seed, 6 if ctx.quick else 250)
+    ents += jdfgen.random_programs(3000 + ctx.seed, 14 if ctx.quick else 250)
     cfgs = configs(ctx)
     backs = {e["prog"]["name"]: ("dynamic-hash-table" if i % 3 == 0 else "index-array") for i, e in enumerate(ents)}
 
